@@ -19,6 +19,8 @@ import Driver.SqlDml
 import Driver.RowSerde
 import Driver.SubSpill
 import Driver.Record
+import Driver.SqlCons
+import Driver.AutoInc
 
 def main (args : List String) : IO UInt32 := do
   let stdin ← IO.getStdin
@@ -45,4 +47,6 @@ def main (args : List String) : IO UInt32 := do
   | ["rowserde"] => Driver.loop stdin stdout () Driver.RowSerde.step; return 0
   | ["subspill"] => Driver.loop stdin stdout () Driver.SubSpill.step; return 0
   | ["record"] => Driver.loop stdin stdout () Driver.Record.step; return 0
+  | ["sqlcons"] => Driver.loop stdin stdout ({} : TurVerif.SqlDb.DbState) Driver.SqlCons.step; return 0
+  | ["autoinc"] => Driver.loop stdin stdout ({} : TurVerif.AutoInc.St) Driver.AutoInc.step; return 0
   | _ => IO.eprintln "usage: tvmodel <family>"; return 2
